@@ -412,6 +412,12 @@ Definition nob (r : resp) : Prop := ob (buffer r) = [].      (* no pending head 
 Lemma len_zero_nil (b : list N) : (0 <? len b) = false -> b = [].
 Proof. unfold len. destruct b; auto. cbn [length]. intros H. apply N.ltb_ge in H. lia. Qed.
 
+Ltac fin_stream :=
+  cbn [fst set_written set_bufs upd_out out buffer bodybuf headEncoded chunked chunkChecked code contentLen h_cl bodyWritten];
+  repeat match goal with H : ob _ = [] |- _ => rewrite H end;
+  repeat match goal with H : bodybuf _ = _ |- _ => rewrite H end;
+  rewrite ?concat_snoc; cbn [ob app]; rewrite ?app_nil_r; repeat split; auto; rewrite <- ?app_assoc; try reflexivity.
+
 Lemma append_phase_stream cl r2 d : (0 < cl -> nob r2) ->
   let r' := fst (append_phase cl r2 d) in
   stream r' = stream r2 ++ d /\ buffer r' = buffer r2 /\ headEncoded r' = headEncoded r2 /\ chunked r' = chunked r2
@@ -424,22 +430,11 @@ Proof.
     destruct (bodybuf r2) as [bb|] eqn:Eb.
     + destruct (MAXP <? len bb + len d).
       * destruct (0 <? len bb) eqn:Ebb.
-        -- destruct (MAXP <=? len d);
-             cbn [fst set_written set_bufs upd_out out buffer bodybuf headEncoded chunked chunkChecked code contentLen h_cl bodyWritten];
-             rewrite ?concat_snoc, ?Hn; cbn [ob app]; rewrite ?app_nil_r; repeat split; auto; now rewrite <- ?app_assoc.
-        -- apply len_zero_nil in Ebb. subst bb.
-           destruct (MAXP <=? len d);
-             cbn [fst set_written set_bufs upd_out out buffer bodybuf headEncoded chunked chunkChecked code contentLen h_cl bodyWritten];
-             rewrite ?concat_snoc, ?Eb, ?Hn; cbn [ob app]; rewrite ?app_nil_r; repeat split; auto; now rewrite <- ?app_assoc.
-      * destruct (MAXP <=? len (bb ++ d));
-          cbn [fst set_written set_bufs upd_out out buffer bodybuf headEncoded chunked chunkChecked code contentLen h_cl bodyWritten];
-          rewrite ?concat_snoc, ?Hn; cbn [ob app]; rewrite ?app_nil_r; repeat split; auto; now rewrite <- ?app_assoc.
-    + destruct (MAXP <=? len d);
-        cbn [fst set_written set_bufs upd_out out buffer bodybuf headEncoded chunked chunkChecked code contentLen h_cl bodyWritten];
-        rewrite ?concat_snoc, ?Hn; cbn [ob app]; rewrite ?app_nil_r; repeat split; auto; now rewrite <- ?app_assoc.
-  - destruct (bodybuf r2) as [bb|] eqn:Eb;
-      cbn [fst set_written set_bufs upd_out out buffer bodybuf headEncoded chunked chunkChecked code contentLen h_cl bodyWritten];
-      cbn [ob app]; rewrite ?app_nil_r; repeat split; auto; now rewrite <- ?app_assoc.
+        -- destruct (MAXP <=? len d); fin_stream.
+        -- apply len_zero_nil in Ebb. subst bb. destruct (MAXP <=? len d); fin_stream.
+      * destruct (MAXP <=? len (bb ++ d)); fin_stream.
+    + destruct (MAXP <=? len d); fin_stream.
+  - clear Hn. destruct (bodybuf r2) as [bb|] eqn:Eb; fin_stream.
 Qed.
 
 Lemma head_phase_stream r1 l : (headEncoded r1 = false -> buffer r1 = None) -> (buffer (encode_head r1) <> None -> ob (bodybuf r1) = []) ->
@@ -482,13 +477,6 @@ Definition IdInv (CL : N) (r : resp) : Prop :=
   (headEncoded r = false -> Unstarted r /\ (0 < CL -> bodybuf r = None)) /\
   (0 < CL -> headEncoded r = true -> buffer r = None \/ ob (bodybuf r) = []).
 
-Lemma ecl_set r cl bw : 0 < cl \/ (cl = 0 /\ ecl r = 0) -> ecl (set_written (set_hasbody r) cl bw) = (if 0 <? cl then cl else ecl r).
-Proof.
-  unfold ecl. cbn [set_written set_hasbody contentLen h_cl]. intros [H|[-> H]].
-  - destruct (N.ltb_spec 0 cl); [reflexivity|lia].
-  - cbn. unfold ecl in H. destruct (0 <? contentLen r) eqn:E; [apply N.ltb_lt in E; lia|exact H].
-Qed.
-
 Lemma id_write CL r c d' : IdInv CL r -> ~ In WErrContentLength (snd (run_op r (HWrite (c :: d')))) ->
   let d := c :: d' in
   let r' := fst (op_write r d) in
@@ -500,12 +488,12 @@ Proof.
   intros (Hs & Hc & He & Hu & Hk) Hok. cbv zeta.
   pose proof (op_write_identity r c d' Hs Hc) as W. cbv zeta in W.
   cbn [run_op] in Hok. rewrite W in *. rewrite He in *.
-  set (r1 := set_written (set_hasbody r) CL (bodyWritten r)) in *.
+  remember (set_written (set_hasbody r) CL (bodyWritten r)) as r1 eqn:Er1.
   destruct ((0 <? CL) && (CL <? bodyWritten r + len (c :: d'))) eqn:Eref.
   { exfalso. apply Hok. cbn. auto. }
   assert (F1 : out r1 = out r /\ buffer r1 = buffer r /\ bodybuf r1 = bodybuf r /\ headEncoded r1 = headEncoded r
                /\ chunked r1 = chunked r /\ chunkChecked r1 = chunkChecked r /\ code r1 = code r /\ h_cl r1 = h_cl r /\ contentLen r1 = CL)
-    by (repeat split).
+    by (subst r1; repeat split).
   destruct F1 as (A1 & A2 & A3 & A4 & A5 & A6 & A7 & A8 & A9).
   assert (Sr1 : stream r1 = stream r) by (unfold stream; now rewrite A1, A2, A3).
   destruct (N.ltb_spec 0 CL) as [Hcl|Hcl].
@@ -513,12 +501,12 @@ Proof.
     destruct (head_phase_stream r1 (len (c :: d'))) as (P1 & P2 & P3 & P4 & P5 & P6 & P7 & P8 & P9).
     { rewrite A4, A2. intros Hf. apply Hu in Hf. apply Hf. }
     { intros Hb. rewrite A3. destruct (headEncoded r) eqn:Eh.
-      - rewrite (eh_encoded r1) in Hb by (rewrite A4; exact Eh). rewrite A2 in Hb.
+      - rewrite (eh_encoded r1 A4) in Hb. rewrite A2 in Hb.
         destruct (Hk Hcl eq_refl) as [K|K]; [contradiction|exact K].
       - destruct (Hu eq_refl) as [_ Hbn]. now rewrite (Hbn Hcl). }
     destruct (append_phase_stream CL (head_phase r1 (len (c :: d'))) (c :: d')) as (Q1 & Q2 & Q3 & Q4 & Q5 & Q6 & Q7 & Q8 & Q9).
     { intros _. unfold nob. now rewrite P2. }
-    cbv zeta in *. assert (Hlt : (0 <? CL) = true) by (apply N.ltb_lt; exact Hcl). rewrite Hlt.
+    cbv zeta in *.
     split; [|split; [|split; [|now rewrite Q3, P3]]].
     + unfold IdInv, settled. rewrite Q3, Q4, Q5, Q6, P3, P4, P5, P6, A5, A6, A7. destruct Hs as [S1 S2].
       repeat split; auto; try discriminate.
@@ -527,9 +515,9 @@ Proof.
     + intros [Eh|E0]; [|lia]. rewrite Q1, P1. rewrite (eh_encoded r1) by (rewrite A4; exact Eh). now rewrite Sr1.
     + intros Eh _. exists (stream (encode_head r1)). now rewrite Q1, P1.
   - (* no declared length: the body just accumulates *)
-    assert (CL = 0) by lia. subst CL.
+    assert (E0 : CL = 0) by lia. rewrite E0 in *. clear Hcl.
     destruct (append_phase_stream 0 r1 (c :: d')) as (Q1 & Q2 & Q3 & Q4 & Q5 & Q6 & Q7 & Q8 & Q9); [lia|].
-    cbv zeta in *. cbn [N.ltb N.compare].
+    cbv zeta in *.
     split; [|split; [|split; [|now rewrite Q3, A4]]].
     + unfold IdInv, settled. rewrite Q2, Q3, Q4, Q5, Q6, A2, A4, A5, A6, A7. destruct Hs as [S1 S2].
       repeat split; auto; try lia.
